@@ -32,6 +32,8 @@ fn main() {
         "rmi_roundtrip" => h_maps::rmi_roundtrip(),
         "root_setters" => h_maps::root_setters(),
         "builder_model" => h_maps::builder_model(),
+        "adjust" => h_maps::adjust(false),
+        "adjust_dups" => h_maps::adjust(true),
         _ => { eprintln!("unknown harness {name}"); std::process::exit(2); }
     };
     let cex = match &r.cex { Some(c) => serde_json::Value::String(c.clone()), None => serde_json::Value::Null };
